@@ -47,6 +47,7 @@ class C15(DiffProperty):
     driver = "c15_driver.ml"
     harness_src = "c15_refs.c"          # the C++ part c15_cxx.cpp is built by evaluate() below
     libs = ["mptcore", "mptplot", "mptio"]
+    harness_args = ("60",)             # per-case wall-clock limit [s]: the LeakSanitizer pass stops the world, slow on a loaded machine
     harness_env = dict(ASAN_LEAK_ENV, ASAN_OPTIONS=ASAN_LEAK_ENV["ASAN_OPTIONS"] + ":symbolize=0",
                        LSAN_OPTIONS="exitcode=23:print_suppressions=0")
     rule = ("a case = one history of handle operations over up to three objects and up to six handle slots per kind, run from an "
